@@ -45,6 +45,8 @@ def build_cases(tier):
         cases += common.split_call_case(c, v64)
     for c in F.func3(tier)[:: (4 if tier == "quick" else 1)]:
         cases.append(dict(c, variants=v64))
+    for c in F.w_alias()[5:]:
+        cases.append(dict(c, variants=[{}, {"inline_functions": False}, {"inline_functions": False, "use_push_pop_functions": True}]))
     for c in F.w_tailcall():
         cases.append(dict(c, variants=[v for v in v32 if not v["inline_functions"]]))
     for c in F.lists(tier, lens=range(2, 6)):
